@@ -552,7 +552,20 @@ class _Linalg:
         used("linalg.norm = sqrt(sum of squares)")
         a = lift(a)
         s = arr.asum(a * a, axis, keepdims)
-        return arr.ew1(lambda t: SQRT(arr.t_z3(t, True)), s, "real")
+
+        def root(t):
+            if arr._num(t):
+                return _math.sqrt(t)
+            from .bigsum import SumExpr
+            if isinstance(t, SumExpr):
+                raise OutOfReach("norm over a symbolic-extent axis")
+            tt = arr.t_z3(t, True)
+            r = SQRT(tt)
+            ax = z3.Implies(tt >= 0, z3.And(r * r == tt, r >= 0))     # instance of the axiom defining sqrt
+            if not any(ax.eq(p_) for p_ in sym.CTX.path):
+                sym.CTX.path.append(ax)
+            return r
+        return arr.ew1(root, s, "real")
 
     def eigh(self, *a, **k):
         raise OutOfReach("linalg.eigh is external numerics (assumed relational contract only)")
